@@ -9,6 +9,7 @@ import (
 	"path/filepath"
 	"sort"
 	"strings"
+	"time"
 
 	"github.com/MichaelMure/git-bug/entities/bug"
 	"github.com/MichaelMure/git-bug/entities/identity"
@@ -157,6 +158,7 @@ func runC15(c *runCtx) {
 	c15Trees(c)
 	c15Config(c)
 	c15PackedRefs(c, gb)
+	c15LongLivedHandle(c)
 	cleanupScratch()
 	N := c.pick(3, 16)
 	for i := 0; i < N; i++ {
@@ -933,5 +935,67 @@ func c15Config(c *runCtx) {
 			}
 		}
 		os.RemoveAll(dir)
+	}
+}
+
+// c15LongLivedHandle: one repository handle kept over the host's housekeeping (the web UI, a library user):
+// bugs are created and removed, the host prunes unreachable objects (`git gc --prune=now`), bugs are created
+// again through the same handle. Every object the new bugs point at must be there: `git fsck --strict`
+// stays clean and the bugs read back from another handle.
+func c15LongLivedHandle(c *runCtx) {
+	for rep := 0; rep < c.pick(2, 8); rep++ {
+		r := c.rng.fork()
+		repo, dir := newGoGit("c15handle", false)
+		author, err := identity.NewIdentity(repo, "long lived", "ll@example.com")
+		if err != nil {
+			panic(err)
+		}
+		if err := author.Commit(repo); err != nil {
+			panic(err)
+		}
+		mk := func(title string) entity.Id {
+			b, _, err := bug.Create(author, time.Now().Unix(), title, "message "+randHexId(r, 4), nil, nil)
+			if err != nil {
+				panic(err)
+			}
+			if r.chance(1, 2) {
+				bug.AddComment(b, author, time.Now().Unix(), "a comment", nil, nil)
+			}
+			if err := b.Commit(repo); err != nil {
+				panic(err)
+			}
+			return b.Id()
+		}
+		var log []string
+		for round := 0; round < r.rangeInt(1, 3); round++ {
+			var ids []entity.Id
+			for k := 0; k < r.rangeInt(1, 3); k++ {
+				ids = append(ids, mk(fmt.Sprintf("round %d bug %d", round, k)))
+			}
+			log = append(log, fmt.Sprintf("create(%d)", len(ids)))
+			for _, id := range ids {
+				if err := bug.Remove(repo, id); err != nil {
+					panic(err)
+				}
+			}
+			log = append(log, "remove-all")
+			if out, err := gitIn(dir, "gc", "-q", "--prune=now"); err != nil {
+				panic("git gc: " + out)
+			}
+			log = append(log, "git gc --prune=now")
+		}
+		id := mk("after the housekeeping")
+		log = append(log, "create")
+		c.count("long-lived-handle")
+		if bad := fsckStrict(dir); bad != "" {
+			c.violation(-1, "C15/fsck", fmt.Sprintf("one handle over %v: git fsck --strict reports %s", log, trunc(bad, 300)), nil)
+		}
+		if r2, err := openGoGit(dir); err == nil {
+			if _, err := bug.Read(r2, id); err != nil {
+				c.violation(-1, "C15/fsck", fmt.Sprintf("one handle over %v: the last bug does not read from a new handle: %v", log, err), nil)
+			}
+			r2.Close()
+		}
+		repo.Close()
 	}
 }
